@@ -32,6 +32,7 @@ def pause_execution(
             status = :status,
             paused = :paused
         WHERE id = :id
+          AND status NOT IN ('SUCCEEDED', 'TERMINAL', 'CANCELED', 'STOPPED', 'SKIPPED', 'FAILED_CONTINUE')
         """,
         {
             "id": execution_id,
